@@ -3,14 +3,16 @@ import DaeVerif.Common.Proto
 /-! Line-protocol driver for C15 (op grammar: see harness/overlay/component/outbound/c15_test.go). -/
 open DaeVerif DaeVerif.C15 DaeVerif.Proto
 
-structure World where
+/-- driver state: before `group` only the dialers exist (their collections, flags, penalties);
+afterwards everything lives in the model's `World` and every event is a `stepWcb`. -/
+structure DState where
   n : Nat
-  g : Option Group
-  colls : Nat → Nat → Coll      -- [type][dialer]
+  w : Option World
+  colls : Nat → Nat → Coll      -- [type][dialer], before the group exists
   alive : Nat → Nat → Bool
   pens : Nat → Nat → Int
 
-def World.empty (n : Nat) : World :=
+def DState.empty (n : Nat) : DState :=
   ⟨n, none, fun _ _ => Coll.empty, fun _ _ => true, fun _ _ => 0⟩
 
 def parseInt? (s : String) : Option Int := s.toInt?
@@ -51,13 +53,11 @@ def setDump (s : ASet) : String :=
   " alive=" ++ ",".intercalate (alive.map toString) ++
   " best=" ++ minStr (getMin s none) ++
   " ex=" ++ ",".intercalate (ds.map fun d => minStr (getMin s (some d))) ++
-  " sl=" ++ ",".intercalate (ds.map fun d => toString (sortingLatency s d)) ++
+  " sl=" ++ ",".intercalate (ds.map fun d => if s.isAlive d then toString (sortingLatency s d) else "-") ++
+  " lt=" ++ ",".intercalate (ds.map fun d => match s.lat d with | some v => toString v | none => "-") ++
   " pol=" ++ policyStr s.policy ++
   " inv=" ++ boolStr s.idxOk ++ boolStr s.bestAliveOk ++ boolStr s.nilIffEmptyOk ++
   (if s.panicked then " PANIC" else "")
-
-def snapOf (w : World) (p : Policy) (t d : Nat) : Option Int :=
-  (w.colls t d).snapshot p (w.pens t d)
 
 def groupDump (g : Group) : String :=
   if g.hasSets then " | ".intercalate ((List.range 6).map fun t => setDump (g.sets t))
@@ -68,13 +68,13 @@ def parseOffs (s : String) : Option (List Int) :=
 
 def resStr : Except SelErr (List SelOk) → String
   | .ok l => "ok " ++ ",".intercalate (l.map fun r => s!"{r.d}:{r.lat}:{r.sel}")
-  | .error .noDialers => "err=nodialers"
   | .error .noAlive => "err=noalive"
-  | .error .outOfRange => "err=range"
-  | .error .unsupported => "err=unsupported"
+  | .error _ => "err=other"
 
+/-- `choose`: node, admitting domain, and the family actually dialled
+(`endpointNetworkTypeForSelection`: the admitting domain's family) -/
 def resStrNoLat : Except SelErr (List SelOk) → String
-  | .ok l => "ok " ++ ",".intercalate (l.map fun r => s!"{r.d}:{r.sel}")
+  | .ok l => "ok " ++ ",".intercalate (l.map fun r => s!"{r.d}:{r.sel}:{if r.sel % 2 = 1 then 6 else 4}")
   | e => resStr e
 
 def parseNetType? (l4 ip dns dom : String) : Option NetType := do
@@ -84,58 +84,73 @@ def parseNetType? (l4 ip dns dom : String) : Option NetType := do
   let d ← (match dom with | "0" => some UdpDom.unset | "1" => some UdpDom.dns | "2" => some UdpDom.data | _ => none)
   pure ⟨udp, ip6, isDns, d⟩
 
-def tellSet (w : World) (t d : Nat) (alive : Bool) : World × String :=
-  let w1 := { w with alive := upd w.alive t (upd (w.alive t) d alive) }
-  match w.g with
-  | none => (w1, "nogroup")
-  | some g =>
-    let r := gNotify g t d alive (snapOf w1 g.policy t d)
-    ({ w1 with g := some r.1 }, cbsStr r.2 ++ " " ++ (if r.1.hasSets then setDump (r.1.sets t) else "nosets"))
+/-- apply a world event and print callbacks + the dump of domain `t` (or all domains) -/
+def worldEv (st : DState) (w : World) (e : WEv) (dumpT : Option Nat) : DState × String :=
+  let r := stepWcb w e
+  let g := r.1.g
+  let dump := match dumpT with
+    | some t => if g.hasSets then setDump (g.sets t) else "nosets"
+    | none => groupDump g
+  ({ st with w := some r.1 }, cbsStr r.2 ++ " " ++ dump)
 
-def handle (w : World) (line : String) : World × String :=
+def handle (st : DState) (line : String) : DState × String :=
   match words line with
   | ["world", n] =>
     match n.toNat? with
-    | some n => (World.empty n, "ok")
-    | none => (w, "bad-op")
+    | some n => (DState.empty n, "ok")
+    | none => (st, "bad-op")
   | ["group", tol, pol, fi, offs] =>
     match parseInt? tol, parsePolicy? pol, parseInt? fi, parseOffs offs with
     | some tol, some p, some fi, some offs =>
-      let r := gNew w.n tol (fun d => offs.getD d 0) p fi w.alive (fun t d => snapOf w p t d)
-      ({ w with g := some r.1 }, cbsStr r.2 ++ " " ++ groupDump r.1)
-    | _, _, _, _ => (w, "bad-op")
+      let snap := fun t d => (st.colls t d).snapshot p (st.pens t d)
+      let cbs := (gNew st.n tol (fun d => offs.getD d 0) p fi st.alive snap).2
+      let w := worldNew st.n tol (fun d => offs.getD d 0) p fi st.alive st.colls st.pens
+      ({ st with w := some w }, cbsStr cbs ++ " " ++ groupDump w.g)
+    | _, _, _, _ => (st, "bad-op")
   | ["sample", t, d, l] =>
     match t.toNat?, d.toNat?, parseInt? l with
     | some t, some d, some l =>
-      let w1 := { w with colls := upd w.colls t (upd (w.colls t) d ((w.colls t d).append l)) }
-      tellSet w1 t d true
-    | _, _, _ => (w, "bad-op")
+      match st.w with
+      | some w => worldEv st w (.sample t d l) (some t)
+      | none =>
+        ({ st with colls := upd st.colls t (upd (st.colls t) d ((st.colls t d).append l)),
+                   alive := upd st.alive t (upd (st.alive t) d true) }, "nogroup")
+    | _, _, _ => (st, "bad-op")
   | ["told", t, d, a] =>
     match t.toNat?, d.toNat? with
-    | some t, some d => tellSet w t d (a = "1")
-    | _, _ => (w, "bad-op")
+    | some t, some d =>
+      match st.w with
+      | some w => worldEv st w (.told t d (a = "1")) (some t)
+      | none => ({ st with alive := upd st.alive t (upd (st.alive t) d (a = "1")) }, "nogroup")
+    | _, _ => (st, "bad-op")
   | ["pen", t, d, v] =>
     match t.toNat?, d.toNat?, parseInt? v with
-    | some t, some d, some v => ({ w with pens := upd w.pens t (upd (w.pens t) d v) }, "ok")
-    | _, _, _ => (w, "bad-op")
+    | some t, some d, some v =>
+      match st.w with
+      | some w => ({ st with w := some (stepW w (.pen t d v)) }, "ok")
+      | none => ({ st with pens := upd st.pens t (upd (st.pens t) d v) }, "ok")
+    | _, _, _ => (st, "bad-op")
+  | ["same", t] =>
+    match st.w, t.toNat? with
+    | some w, some t => (st, cbsStr [] ++ " " ++ (if w.g.hasSets then setDump (w.g.sets t) else "nosets"))
+    | none, some _ => (st, "nogroup")
+    | _, _ => (st, "bad-op")
   | ["policy", pol, fi] =>
-    match w.g, parsePolicy? pol, parseInt? fi with
-    | some g, some p, some fi =>
-      let r := gSetPolicy g p fi (fun t d => snapOf w p t d)
-      ({ w with g := some r.1 }, cbsStr r.2 ++ " " ++ groupDump r.1)
-    | _, _, _ => (w, "bad-op")
+    match st.w, parsePolicy? pol, parseInt? fi with
+    | some w, some p, some fi => worldEv st w (.policy p fi) none
+    | _, _, _ => (st, "bad-op")
   | [op, l4, ip, dns, dom, strict, excl] =>
-    match w.g, parseNetType? l4 ip dns dom, parseExcl? excl with
+    match st.w.map (·.g), parseNetType? l4 ip dns dom, parseExcl? excl with
     | some g, some nt, some ex =>
-      if op = "sel" then (w, resStr (selectAll g nt (strict = "1") ex))
-      else if op = "choose" then (w, resStrNoLat (chooseSelectAll g nt (strict = "1") ex))
-      else (w, "bad-op")
-    | _, _, _ => (w, "bad-op")
+      if op = "sel" then (st, resStr (selectAll g nt (strict = "1") ex))
+      else if op = "choose" then (st, resStrNoLat (chooseSelectAll g nt (strict = "1") ex))
+      else (st, "bad-op")
+    | _, _, _ => (st, "bad-op")
   | ["rand", t, excl] =>
-    match w.g, t.toNat?, parseExcl? excl with
+    match st.w.map (·.g), t.toNat?, parseExcl? excl with
     | some g, some t, some ex =>
-      (w, "cands=" ++ ",".intercalate ((sortNat (randCands (g.sets t) ex)).map toString))
-    | _, _, _ => (w, "bad-op")
-  | _ => (w, "bad-op")
+      (st, "cands=" ++ ",".intercalate ((sortNat (randCands (g.sets t) ex)).map toString))
+    | _, _, _ => (st, "bad-op")
+  | _ => (st, "bad-op")
 
-def main : IO Unit := lineLoopS (World.empty 0) handle
+def main : IO Unit := lineLoopS (DState.empty 0) handle
